@@ -50,7 +50,8 @@ class BlobExchangeClientProtocol(asyncio.Protocol):
         if not self._response_fut:
             log.warning("Protocol received data before expected, probable race on keep alive. Closing transport.")
             return self.close()
-        if self._blob_bytes_received and not self.writer.closed():
+        if self._response_fut.done() and not self._response_fut.cancelled() and self.writer and not self.writer.closed():
+            # the response header has been received, everything after it is blob data (which may itself look like json)
             return self._write(data)
 
         response = BlobResponse.deserialize(self.buf + data)
